@@ -18,6 +18,9 @@ def gen_case(rng, idx, quick=True):
     n = rng.choice(ROWS + ([rng.randrange(2, 200)] * 2) + (ROWS_BIG if (not quick and rng.random() < 0.3) else []))
     if idx < len(ROWS):
         n = ROWS[idx]
+    B3 = 2 * len(KINDS) + 15 + 6 + 10      # first of the RangeIndex cases (see below)
+    if B3 <= idx < B3 + 5:
+        n = max(n, 4)
     ncols = rng.choice([1, 2, 3, 4])
     kinds = rng.sample(KINDS, ncols)
     if idx < len(KINDS):
@@ -117,12 +120,21 @@ def gen_case(rng, idx, quick=True):
         opts["write_index"] = wi
     if wi is True and n and rng.random() < 0.5:
         df.index = pd.Index(np.arange(10, 10 + n, dtype="int64") * 3, name="myidx")
+    # directed: a RangeIndex other than the default one (any start, any non-zero step, negative too) is kept in the pandas metadata
+    # and regenerated on read (theorem range_index_regenerated_now)
+    RANGES = [(10, -1), (0, -3), (5, 2), (7, 1), (-4, -1)]
+    b3 = b2 + len(KINDS)
+    assert b3 == B3
+    if b3 <= idx < b3 + len(RANGES):
+        start, step = RANGES[idx - b3]
+        df.index = pd.RangeIndex(start, start + len(df) * step, step)
+        opts.pop("write_index", None)
     g = {"page": rng.choice([None, None, None, 64, 300, 4096]), "version": rng.choice([1, 1, 2])}
     if forced_page:
         g["page"] = forced_page
     if forced_version:
         g["version"] = forced_version
-    desc = {"rows": n, "kinds": kinds, "nulls": pats, "opts": {k: (v if not isinstance(v, (list, dict)) else str(v)[:60]) for k, v in opts.items()},
+    desc = {"rows": n, **({"range_index": [df.index.start, df.index.step]} if isinstance(df.index, pd.RangeIndex) and (df.index.start, df.index.step) != (0, 1) else {}), "kinds": kinds, "nulls": pats, "opts": {k: (v if not isinstance(v, (list, dict)) else str(v)[:60]) for k, v in opts.items()},
             "page_size": g["page"], "page_version": g["version"]}
     return {"df": df, "opts": opts, "globals": g, "desc": desc, "kinds": kinds, "pats": pats}
 
@@ -283,6 +295,7 @@ def writer_model_stream(ctx, report, work, data_blobs, decoded):
         head, dd = parse_reply(rep)
         if head != "ok":
             continue
+        chunk_meta = {(cm[0], cm[1]): (cm[2], cm[3]) for cm in parse_list(dd.get("chunks", "[]"))}
         groups = {}
         for pg in parse_list(dd["pages"]):
             groups.setdefault((pg[0], pg[1]), []).append(pg)
@@ -329,10 +342,10 @@ def writer_model_stream(ctx, report, work, data_blobs, decoded):
             v2 = int(any(p[2] == 3 for p in pages))
             reqs.append(f"wpage chunk ptype={m[0]} tl={m[4]} nulls={int(m[3] >= 1)} v2={v2} item={item} cats={cats_txt} pages=["
                         + ",".join("[" + ",".join(str(x) for x in pc) + "]" for pc in page_cells) + "]")
-            exps.append(actual)
+            exps.append((actual, chunk_meta.get((ri, col))))
             recs.append({"check": "writer-model", **case["desc"], "file": rel, "row_group": ri, "column": cname})
     reps = drv.ask(reqs) if reqs else []
-    for req, exp, rec, rep in zip(reqs, exps, recs, reps):
+    for req, (exp, cmeta), rec, rep in zip(reqs, exps, recs, reps):
         report.stream("wpage.chunk")
         report.count("wpage:pages", len(exp))
         head, dd = parse_reply(rep)
@@ -340,6 +353,11 @@ def writer_model_stream(ctx, report, work, data_blobs, decoded):
             report.corr_break("wpage.chunk", {**rec, "what": "the writer model rejects the request: " + rep[:200], "sig": "wpage:" + rep[:30]})
             continue
         got = parse_list(dd["pages"])
+        if cmeta is not None:
+            m_enc, m_st = parse_list(dd["encodings"]), parse_list(dd["stats"])
+            if sorted(cmeta[0]) != sorted(m_enc) or (cmeta[1] != -1 and sorted(cmeta[1]) != sorted(m_st)) or cmeta[1] == -1:
+                report.corr_break("wpage.chunk", {**rec, "what": f"ColumnMetaData.encodings / encoding_stats written {cmeta[0]} / {cmeta[1]}, the model of "
+                                                  f"write_column records {m_enc} / {m_st}", "sig": "wpage:encoding_stats"})
         if dd.get("back") != "same":
             report.corr_break("wpage.chunk", {**rec, "what": "Spec.File does not decode the MODEL's own pages back to the cells (" + str(dd.get("back"))[:120]
                                               + "): the input is outside the theorem's hypotheses", "sig": "wpage:back"})
